@@ -443,6 +443,13 @@ func main() {
 		}
 	}
 	c.Count("crash_positions_total", crashTotal)
+	perHist := map[string][]int{}
+	for i := range hs {
+		for si := range ff[i].snaps {
+			perHist[hs[i].Name] = append(perHist[hs[i].Name], ff[i].snaps[si].calls)
+		}
+	}
+	c.Extra("api_calls_per_reconcile_of_fault_free_run", perHist)
 	c.Count("crash_positions_total_base_histories", crashBase)
 	{
 		var wg sync.WaitGroup
